@@ -224,6 +224,7 @@ fn fam_hex(ctx: &Ctx) {
         let el = if valid { Out::v(&val(false)) } else { Out::Panic };
         chk!(cs, "U128::from_be_hex", &eb, Out::v(&w(&U128::from_be_hex(&st))));
         chk!(cs, "I128::from_be_hex", &eb, Out::v(&w(Int::<2>::from_be_hex(&st).as_uint())));
+        cs.group();
         chk!(cs, "Boxed::from_be_hex", &(if valid { Out::v(&val(true)) } else { Out::None }), match Option::<BoxedUint>::from(BoxedUint::from_be_hex(&st, 128)) {
             Some(x) => Out::v(&bw(&x)),
             None => Out::None,
